@@ -6,8 +6,9 @@ import ast
 from ..cfg import CFG
 from ..loops import dotted
 from ..nf import NF, Scope, Poly, parse_expr
-from ..repo import Repo, loc, short, AnalysisError, positional_params, param_names
+from ..repo import Repo, loc, short, AnalysisError, positional_params, param_names, bind_call
 from ..resolve import Resolver
+from ..sem import guard_literals, spec as sem_spec, stmt_calls, on_every_path_once, arg_of
 
 EXPLANATION = (
     "Ownership analysis of the `last sampled batch` field: every write of an attribute is attributed to the class of its receiver "
@@ -33,6 +34,24 @@ RULES = {
 }
 
 RB = "rl_blox.blox.replay_buffer."
+
+
+def sem_split_args(inner: str) -> list:
+    """Top-level comma split of a canonical argument list."""
+    out, depth, cur = [], 0, ""
+    for ch in inner:
+        if ch in "([{":
+            depth += 1
+        elif ch in ")]}":
+            depth -= 1
+        if ch == "," and depth == 0:
+            out.append(cur.strip())
+            cur = ""
+        else:
+            cur += ch
+    if cur.strip():
+        out.append(cur.strip())
+    return out
 
 
 def _m(repo, cq, name):
@@ -95,16 +114,27 @@ def r1_field_agreement(ck, repo):
                               "" if ok else f"`{field}` is stored on a {rc.rsplit('.', 1)[-1]} but PriorityBuffer.update_priority reads its own `{field}`: the priorities of this batch are never updated (or an empty / stale index set is written)", loc(mi0, n))
     ck.floor("sampled-indices-writes", n_writes, 2)
     # every buffer class that delegates update_priority to self.priority must sample through a method that writes the field on the PriorityBuffer
+    nf0 = NF(repo, inline_depth=1, inline_calls=False)
     for cq in (RB + "LAP", RB + "PrioritizedReplayBuffer", RB + "SubtrajectoryReplayBufferPER"):
-        m = repo.method(cq, "update_priority")
-        ck.need(m is not None, f"{cq}.update_priority not found")
-        body = [ast.unparse(s) for s in m[1].body if not (isinstance(s, ast.Expr) and isinstance(s.value, ast.Constant))]
-        ok = body == ["self.priority.update_priority(priority)"]
-        ck.ob("R4-bookkeeping", f"{cq}.update_priority", "delegates", ok, " ; ".join(body), "" if ok else "buffers must forward the new priorities to their PriorityBuffer", loc(repo.cls(m[0])._module, m[1]))
-        m = repo.method(cq, "reset_max_priority")
-        body = [ast.unparse(s) for s in m[1].body if not (isinstance(s, ast.Expr) and isinstance(s.value, ast.Constant))]
-        ok = body == ["self.priority.reset_max_priority(self.current_len)"]
-        ck.ob("R4-bookkeeping", f"{cq}.reset_max_priority", "delegates-with-length", ok, " ; ".join(body), "" if ok else "the reset must consider exactly the filled region", loc(repo.cls(m[0])._module, m[1]))
+        for meth, want_arg in (("update_priority", None), ("reset_max_priority", "self.current_len")):
+            m = repo.method(cq, meth)
+            ck.need(m is not None, f"{cq}.{meth} not found")
+            fn = m[1]
+            fmi = repo.cls(m[0])._module
+            fn._module = fmi
+            cfg = nf0.cfg_of(fn)
+            calls = stmt_calls(cfg, lambda c: isinstance(c.func, ast.Attribute) and c.func.attr == meth and dotted(c.func.value) == "self.priority")
+            once = on_every_path_once(cfg, [n.id for n, _ in calls])
+            params = [p_ for p_ in positional_params(fn) if p_ != "self"]
+            args_ok = True
+            for n, c in calls:
+                a = c.args[0] if c.args else (c.keywords[0].value if c.keywords else None)
+                got = nf0.poly(a, Scope(cfg, fmi, {}, cq), n.id).canon() if a is not None else None
+                args_ok &= (got == (want_arg if want_arg else (params[0] if params else None)))
+            ok = once and args_ok
+            key = "delegates" if meth == "update_priority" else "delegates-with-length"
+            ck.ob("R4-bookkeeping", f"{cq}.{meth}", key, ok, "; ".join(short(c, 60) for _, c in calls) or "no call",
+                  "" if ok else ("buffers must forward the new priorities, unchanged and exactly once, to their PriorityBuffer" if meth == "update_priority" else "the reset must consider exactly the filled region (current_len)"), loc(fmi, fn))
     return field
 
 
@@ -261,76 +291,212 @@ def run(ck, repo: Repo, tier: str):
     mi = repo.module("rl_blox.blox.replay_buffer")
 
     # ---- R2 init order ----------------------------------------------------------------------------------------
+    from ..sympath import enumerate_paths, PathEval
     fn = _m(repo, PB, "initialize_priority")
-    body = [ast.unparse(s) for s in fn.body if not (isinstance(s, ast.Expr) and isinstance(s.value, ast.Constant))]
-    ok = body == ["self.priority[insert_idx] = self.max_priority"]
-    ck.ob("R2-init-order", f"{PB}.initialize_priority", "max-priority", ok, " ; ".join(body), "" if ok else "a new transition must receive the current maximum priority at the given slot", loc(mi, fn))
+    cfgi = nf.cfg_of(fn)
+    ip = [p_ for p_ in positional_params(fn) if p_ != "self"][0]
+    sts = [n for n in cfgi.nodes if n.kind == "stmt" and isinstance(n.ast, ast.Assign) and isinstance(n.ast.targets[0], ast.Subscript) and dotted(n.ast.targets[0].value) == "self.priority"]
+    ok = len(sts) == 1 and on_every_path_once(cfgi, [sts[0].id]) and nf.poly(sts[0].ast.targets[0].slice, Scope(cfgi, mi, {}, PB), sts[0].id).canon() == ip \
+        and nf.poly(sts[0].ast.value, Scope(cfgi, mi, {}, PB), sts[0].id).canon() == "self.max_priority"
+    ck.ob("R2-init-order", f"{PB}.initialize_priority", "max-priority", ok, "; ".join(short(n.ast, 60) for n in sts), "" if ok else "a new transition must receive the current maximum priority at the given slot", loc(mi, fn))
+    # LAP: the slot initialised is the value of insert_idx *before* the base class advances it
     fn = _m(repo, RB + "LAP", "add_sample")
     cfg = nf.cfg_of(fn)
-    init = [n for n in cfg.nodes if n.ast is not None and n.kind == "stmt" and "initialize_priority(" in ast.unparse(n.ast)]
-    sup = [n for n in cfg.nodes if n.ast is not None and n.kind == "stmt" and "super().add_sample(" in ast.unparse(n.ast)]
-    ok = len(init) == 1 and len(sup) == 1 and ast.unparse(init[0].ast) == "self.priority.initialize_priority(self.insert_idx)" and cfg.dominates(init[0].id, sup[0].id)
-    ck.ob("R2-init-order", RB + "LAP.add_sample", "init-before-advance", ok, f"{[ast.unparse(n.ast) for n in init + sup]}", "" if ok else "the priority must be initialised at self.insert_idx *before* the base class advances it (otherwise the next, stale slot is initialised)", loc(mi, fn))
+    init = stmt_calls(cfg, lambda c: isinstance(c.func, ast.Attribute) and c.func.attr == "initialize_priority")
+    sup = stmt_calls(cfg, lambda c: ast.unparse(c.func) == "super().add_sample")
+    ck.need(len(init) == 1 and len(sup) == 1, f"{RB}LAP.add_sample: expected one initialize_priority and one super().add_sample call (unrecognised idiom)")
+    (ni, ci), (ns, cs) = init[0], sup[0]
+    a = ci.args[0] if ci.args else None
+    pre = False
+    how = short(a) if a is not None else "?"
+    if a is not None and dotted(a) == "self.insert_idx":
+        pre = cfg.paths_avoiding(ns.id, ni.id, set()) is None and on_every_path_once(cfg, [ni.id])   # read before the advance
+    elif isinstance(a, ast.Name):
+        ds = cfg.defs_of(ni.id, a.id)
+        if len(ds) == 1 and ds[0].kind == "assign" and dotted(ds[0].value) == "self.insert_idx":
+            pre = cfg.paths_avoiding(ns.id, ds[0].node, set()) is None and on_every_path_once(cfg, [ni.id])
+            how = f"{a.id} = self.insert_idx (read {'before' if pre else 'after'} the base add)"
+        elif len(ds) == 1 and ds[0].node == ns.id:
+            how = f"{a.id} = result of super().add_sample"
+            # the base class must then return the slot it wrote: decided by its return expression
+            base = repo.method(RB + "ReplayBuffer", "add_sample")[1]
+            rets = [r for r in ast.walk(base) if isinstance(r, ast.Return) and r.value is not None]
+            bc = nf.cfg_of(base)
+            advs = [m for m in bc.nodes if m.kind == "stmt" and isinstance(m.ast, ast.Assign) and dotted(m.ast.targets[0]) == "self.insert_idx"]
+            pre = bool(rets) and all(isinstance(r.value, ast.Name) and all(d.kind == "assign" and dotted(d.value) == "self.insert_idx" and all(bc.paths_avoiding(ad.id, d.node, set()) is None for ad in advs)
+                                                                                for d in bc.defs_of(bc.node_of(r).id, r.value.id)) for r in rets)
+            how += f" (base returns {[short(r.value) for r in rets]})"
+        else:
+            raise AnalysisError(f"{RB}LAP.add_sample: slot argument `{short(a)}` not recognised")
+    elif a is not None and "current_len" in ast.unparse(a) and "insert_idx" not in ast.unparse(a):
+        pre = False   # the fill level names the written slot only while the buffer is filling
+    else:
+        raise AnalysisError(f"{RB}LAP.add_sample: slot argument `{short(a) if a is not None else None}` not recognised")
+    ck.ob("R2-init-order", RB + "LAP.add_sample", "init-before-advance", pre, f"initialize_priority({how})",
+          "" if pre else "the priority must be initialised at the slot the transition is written to, i.e. the value of insert_idx *before* the ring advances (afterwards it names the next, stale slot; current_len - 1 is that slot only while the buffer is filling)", loc(mi, fn))
+    # subtrajectory PER: all slots returned by the base add are initialised
     fn = _m(repo, RB + "SubtrajectoryReplayBufferPER", "add_sample")
-    body = [ast.unparse(s) for s in fn.body if not (isinstance(s, ast.Expr) and isinstance(s.value, ast.Constant))]
-    ok = body == ["inserted_at = super().add_sample(**sample)", "self.priority.initialize_priority(inserted_at)"]
-    ck.ob("R2-init-order", RB + "SubtrajectoryReplayBufferPER.add_sample", "init-returned-slots", ok, " ; ".join(body), "" if ok else "all slots written by the addition (incl. the extra successor row) must receive the maximum priority", loc(mi, fn))
+    cfg = nf.cfg_of(fn)
+    init = stmt_calls(cfg, lambda c: isinstance(c.func, ast.Attribute) and c.func.attr == "initialize_priority")
+    sup = stmt_calls(cfg, lambda c: ast.unparse(c.func) == "super().add_sample")
+    ck.need(len(init) == 1 and len(sup) == 1, f"{RB}SubtrajectoryReplayBufferPER.add_sample: expected one initialize_priority and one super().add_sample call (unrecognised idiom)")
+    (ni, ci), (ns, cs) = init[0], sup[0]
+    a = ci.args[0] if ci.args else None
+    whole = False
+    if isinstance(a, ast.Name):
+        ds = cfg.defs_of(ni.id, a.id)
+        whole = len(ds) == 1 and ds[0].node == ns.id and ds[0].kind == "assign" and on_every_path_once(cfg, [ni.id])
+    elif isinstance(a, ast.Call) and a is cs:
+        whole = True
+    elif isinstance(a, (ast.Subscript,)):
+        whole = False
+    else:
+        raise AnalysisError(f"{RB}SubtrajectoryReplayBufferPER.add_sample: slot argument `{short(a) if a is not None else None}` not recognised")
+    ck.ob("R2-init-order", RB + "SubtrajectoryReplayBufferPER.add_sample", "init-returned-slots", whole, f"initialize_priority({short(a) if a is not None else None}) <- {short(cs, 50)}",
+          "" if whole else "all slots written by the addition (incl. the extra successor row) must receive the maximum priority", loc(mi, fn))
     sfn = _m(repo, RB + "SubtrajectoryReplayBuffer", "add_sample")
     scfg = nf.cfg_of(sfn)
     ins = [n for n in scfg.nodes if n.kind == "stmt" and isinstance(n.ast, (ast.Assign, ast.AugAssign)) and dotted(n.ast.targets[0] if isinstance(n.ast, ast.Assign) else n.ast.target) == "inserted_at"]
     advs = [n for n in scfg.nodes if n.kind == "stmt" and isinstance(n.ast, ast.Assign) and dotted(n.ast.targets[0]) == "self.insert_idx"]
-    ok = len(ins) == 2 and len(advs) == 2 and ast.unparse(ins[0].ast.value) == "[self.insert_idx]" and ast.unparse(ins[1].ast.value) == "[self.insert_idx]" \
-        and scfg.paths_avoiding(advs[0].id, ins[0].id, set()) is None and scfg.dominates(ins[0].id, advs[0].id) and scfg.dominates(ins[1].id, advs[1].id) and scfg.dominates(advs[0].id, ins[1].id)
-    ck.ob("R2-init-order", RB + "SubtrajectoryReplayBuffer.add_sample", "inserted-at-is-written-slot", ok, f"{[ast.unparse(n.ast) for n in ins]}", "" if ok else "inserted_at must record each write position before the position advances", loc(mi, sfn))
+    if not ins:
+        raise AnalysisError(f"{RB}SubtrajectoryReplayBuffer.add_sample: the record of written slots was not found (unrecognised idiom)")
+    sc0 = Scope(None, mi, {}, "ins")
+    vals_ok = all(nf.poly(n.ast.value, sc0, None).canon() in ("[self.insert_idx]", "(self.insert_idx)") for n in ins)
+    ok = len(ins) == len(advs) and vals_ok and all(scfg.dominates(i_.id, a_.id) for i_, a_ in zip(ins, advs)) and all(scfg.paths_avoiding(a_.id, i_.id, set()) is None for i_, a_ in zip(ins, advs)) \
+        and all(scfg.dominates(advs[k].id, ins[k + 1].id) for k in range(len(ins) - 1))
+    ck.ob("R2-init-order", RB + "SubtrajectoryReplayBuffer.add_sample", "inserted-at-is-written-slot", ok, f"{[short(n.ast) for n in ins]}", "" if ok else "inserted_at must record each write position before the position advances (a slot recorded after the advance is the next, unwritten one; an unrecorded slot keeps an uninitialised priority)", loc(mi, sfn))
 
-    # ---- R3 sampler form ----------------------------------------------------------------------------------------------
-    fn = _m(repo, PB, "prioritized_sampling")
-    cfg = nf.cfg_of(fn)
-    rets = [n for n in cfg.nodes if n.kind == "stmt" and isinstance(n.ast, ast.Return)]
-    env = {p: Poly.atom(p, {p}, {p}) for p in positional_params(fn)}
-    # with mask
-    from ..sympath import enumerate_paths, PathEval
-    paths = enumerate_paths(cfg, cfg.entry, {rets[0].id})
-    forms = set()
-    for p in paths:
-        pe = PathEval(nf, cfg, mi, PB + ".prioritized_sampling", env).run(p)
-        forms.add(pe.store.get(f"self.{field}", Poly.atom("?")).canon())
-    want = {"searchsorted(cumsum(self.priority[:current_len]), cumsum(self.priority[:current_len])[-1]*rng.uniform(0, 1, size=batch_size))",
-            "searchsorted(cumsum(mask[:current_len]*self.priority[:current_len]), cumsum(mask[:current_len]*self.priority[:current_len])[-1]*rng.uniform(0, 1, size=batch_size))"}
-    ok = forms == want
-    ck.ob("R3-sampler-form", PB + ".prioritized_sampling", "inverse-cdf", ok, f"{sorted(forms)}", "" if ok else f"expected searchsorted(cumsum(p[:len][*mask[:len]]), u*total) with u ~ U(0,1): {sorted(want)}", loc(mi, fn))
-    ok = ast.unparse(rets[0].ast.value) == f"self.{field}"
-    ck.ob("R3-sampler-form", PB + ".prioritized_sampling", "returns-recorded-indices", ok, f"return {ast.unparse(rets[0].ast.value)}", "" if ok else "the indices returned must be the ones recorded for update_priority", loc(mi, fn))
-    fn = _m(repo, RB + "PrioritizedReplayBuffer", "prioritized_sampling_stratified")
-    cfg = nf.cfg_of(fn)
-    rets = [n for n in cfg.nodes if n.kind == "stmt" and isinstance(n.ast, ast.Return)]
-    env = {p: Poly.atom(p, {p}, {p}) for p in positional_params(fn)}
-    paths = enumerate_paths(cfg, cfg.entry, {rets[0].id})
-    forms = set()
-    for p in paths:
-        pe = PathEval(nf, cfg, mi, "strat", env).run(p[:-1])
-        forms.add(pe.ev(rets[0].ast.value).canon())
-    P0 = "self.priority.priority[:current_len]"
+    # ---- R3 sampler form: searchsorted(cumsum(P), U) with P = priority[:len] (* mask[:len]) and U uniform on [0, total) ----------------
+    def sampler_forms(cq, meth, fieldtxt, out_store):
+        f = _m(repo, cq, meth)
+        c = nf.cfg_of(f)
+        rets_ = [n for n in c.nodes if n.kind == "stmt" and isinstance(n.ast, ast.Return)]
+        ck.need(len(rets_) == 1, f"{cq}.{meth}: expected one return")
+        env_ = {p_: Poly.atom(p_, {p_}, {p_}) for p_ in positional_params(f)}
+        res = []
+        for pth in enumerate_paths(c, c.entry, {rets_[0].id}):
+            lits = [(t_, v_) for nid, lab in pth if c.nodes[nid].kind == "test" and lab in (True, False) for t_, v_ in c._lits(c.nodes[nid].ast.test, lab, nid)]
+            masked = ("mask is not None", True) in lits or ("mask is None", False) in lits
+            pe = PathEval(nf, c, mi, f"{cq}.{meth}", env_).run(pth[:-1])
+            val = pe.ev(rets_[0].ast.value)
+            key = val.canon()
+            if key in pe.store:
+                val = pe.store[key]
+            res.append((masked, val, pe))
+        return f, rets_[0], res
 
-    def strat(pr):
-        spec = (f"np.searchsorted(np.cumsum({pr}), rng.uniform(low=np.arange(batch_size) * (np.cumsum({pr})[-1] / batch_size), "
-                f"high=(np.arange(batch_size) + 1) * (np.cumsum({pr})[-1] / batch_size), size=batch_size))")
-        return nf.poly(parse_expr(spec), Scope(None, mi, env, "strat"), None).canon()
-    want = {strat(P0), strat(f"({P0} * mask[:current_len])")}
-    ok = forms == want
-    ck.ob("R3-sampler-form", RB + "PrioritizedReplayBuffer.prioritized_sampling_stratified", "stratified-inverse-cdf", ok, f"{sorted(forms)[0][:200]}", "" if ok else "expected one uniform draw per segment [k*total/B, (k+1)*total/B) mapped through the cumulative priorities", loc(mi, fn))
+    def split_call(poly, name):
+        """(args canon list) if poly is a single atom `name(...)`, else None."""
+        t = poly.canon()
+        if not (t.startswith(name + "(") and t.endswith(")")):
+            return None
+        return sem_split_args(t[len(name) + 1:-1])
+
+    for cq, meth, fieldtxt, kind in ((PB, "prioritized_sampling", "self.priority", "plain"), (RB + "PrioritizedReplayBuffer", "prioritized_sampling_stratified", "self.priority.priority", "stratified")):
+        f, retn, res = sampler_forms(cq, meth, fieldtxt, None)
+        site = f"{cq}.{meth}"
+        P0 = f"{fieldtxt}[:current_len]"
+        M0 = "mask[:current_len]"
+        for masked, val, pe in res:
+            tag = "masked" if masked else "unmasked"
+            args = split_call(val, "searchsorted")
+            if args is None or len(args) < 2:
+                raise AnalysisError(f"{site}: returned indices `{val.canon()[:100]}` are not searchsorted(cumulative, draws) (unrecognised idiom)")
+            C, U = args[0], args[1]
+            if not (C.startswith("cumsum(") and C.endswith(")")):
+                ck.ob("R3-sampler-form", site, f"inverse-cdf:{tag}", False, f"searchsorted({C[:80]}, ...)", "the first argument of searchsorted must be the cumulative sum of the (masked) priorities: searching the raw priorities is not an inverse-CDF draw", loc(mi, f))
+                continue
+            P = C[len("cumsum("):-1]
+            want_p = {f"{M0}*{P0}", f"{P0}*{M0}"} if masked else {P0}
+            okp = P in want_p
+            why = ""
+            if not okp:
+                if P0 not in P:
+                    why = f"the distribution is built from `{P[:80]}`, not from the first current_len stored priorities: entries beyond the filled region can be drawn"
+                elif masked and (f"{M0}*" not in P and f"*{M0}" not in P):
+                    why = f"on the masked path the priorities are not multiplied by mask[:current_len] (`{P[:80]}`): masked-out entries keep a positive probability"
+                else:
+                    raise AnalysisError(f"{site}: sampled distribution `{P[:100]}` not recognised")
+            ck.ob("R3-sampler-form", site, f"distribution:{tag}", okp, f"P = {P[:90]}", why, loc(mi, f))
+            # draws: uniform on [0, total)
+            total = f"{C}[-1]"
+            if kind == "plain":
+                forms = {f"{total}*rng.uniform(0, 1, size=batch_size)", f"rng.uniform(0, 1, size=batch_size)*{total}", f"rng.uniform(0, {total}, size=batch_size)", f"{total}*rng.random(batch_size)", f"{total}*rng.random(size=batch_size)"}
+                oku = U in forms
+                whyu = ""
+                if not oku:
+                    if "uniform(" in U or "random(" in U:
+                        if total not in U:
+                            whyu = f"the uniform draws are scaled by something else than the total priority mass ({U[:80]}): the tail of the distribution is never (or always) drawn"
+                        else:
+                            raise AnalysisError(f"{site}: draws `{U[:100]}` not recognised")
+                    else:
+                        raise AnalysisError(f"{site}: draws `{U[:100]}` not recognised")
+                ck.ob("R3-sampler-form", site, f"uniform-over-total:{tag}", oku, f"U = {U[:90]}", whyu, loc(mi, f))
+            else:
+                envs = {p_: Poly.atom(p_, {p_}, {p_}) for p_ in positional_params(f)}
+                Csrc = f"np.cumsum({fieldtxt}[:current_len] * mask[:current_len])" if masked else f"np.cumsum({fieldtxt}[:current_len])"
+                wantU = nf.poly(parse_expr(f"rng.uniform(low=np.arange(batch_size) * ({Csrc}[-1] / batch_size), high=(np.arange(batch_size) + 1) * ({Csrc}[-1] / batch_size), size=batch_size)"), Scope(None, mi, envs, "strat"), None).canon()
+                oku = U == wantU
+                whyu = ""
+                if not oku:
+                    if "uniform(" in U and "arange(batch_size)" in U:
+                        whyu = "expected one uniform draw per segment [k*total/B, (k+1)*total/B): the segments do not tile [0, total)"
+                    else:
+                        raise AnalysisError(f"{site}: stratified draws `{U[:100]}` not recognised")
+                ck.ob("R3-sampler-form", site, f"stratified-segments:{tag}", oku, f"U = {U[:110]}", whyu, loc(mi, f))
+        # the indices returned are the ones recorded for update_priority
+        rv = retn.ast.value
+        okr = dotted(rv) in (f"self.{field}", f"self.priority.{field}") or (isinstance(rv, ast.Name))
+        rec = [n for n in nf.cfg_of(f).nodes if n.kind == "stmt" and isinstance(n.ast, ast.Assign) and any((dotted(t) or "").endswith("." + field) for t in n.ast.targets)]
+        if isinstance(rv, ast.Name):
+            okr = any(isinstance(n.ast.value, ast.Name) and n.ast.value.id == rv.id for n in rec) or any(any(isinstance(t, ast.Name) and t.id == rv.id for t in n.ast.targets) for n in rec)
+        ck.ob("R3-sampler-form", site, "returns-recorded-indices", okr and len(rec) >= 1, f"return {short(rv)}; recorded by {[short(n.ast, 50) for n in rec]}", "" if okr and rec else "the indices returned must be the ones recorded for update_priority", loc(mi, f))
 
     # ---- R4 bookkeeping ---------------------------------------------------------------------------------------------------
     fn = _m(repo, PB, "update_priority")
-    body = [ast.unparse(x) for x in ast.walk(fn) if isinstance(x, (ast.Assign, ast.AugAssign)) and dotted((x.targets[0] if isinstance(x, ast.Assign) else x.target).value if isinstance((x.targets[0] if isinstance(x, ast.Assign) else x.target), ast.Subscript) else (x.targets[0] if isinstance(x, ast.Assign) else x.target)).startswith("self.")]
     cfgu = nf.cfg_of(fn)
-    uncond = all(not cfgu.control_deps(n.id) for n in cfgu.nodes if n.kind == "stmt" and isinstance(n.ast, (ast.Assign, ast.AugAssign)))
-    ok = body == [f"self.priority[self.{field}] = priority", "self.max_priority = max(np.max(priority), self.max_priority)"] and uncond
-    ck.ob("R4-bookkeeping", PB + ".update_priority", "writes-batch-and-raises-max", ok, " ; ".join(body), "" if ok else "must set exactly the last sampled entries and keep max_priority >= every stored priority", loc(mi, fn))
+    pp = [p_ for p_ in positional_params(fn) if p_ != "self"][0]
+    envu = {pp: Poly.atom(pp, {pp}, {pp})}
+    retsu = [cfgu.exit]
+    allp = enumerate_paths(cfgu, cfgu.entry, {cfgu.exit})
+    ck.need(allp, f"{PB}.update_priority: no path")
+    for pth in allp:
+        pe = PathEval(nf, cfgu, mi, PB + ".update_priority", envu).run(pth[:-1])
+        st = {k: v.canon() for k, v in pe.store.items()}
+        wrote = st.get(f"self.priority[self.{field}]")
+        ok1 = wrote == pp
+        ck.ob("R4-bookkeeping", PB + ".update_priority", "writes-batch", ok1, f"self.priority[self.{field}] = {wrote}", "" if ok1 else "must set exactly the last sampled entries to the supplied priorities", loc(mi, fn))
+        newmax = st.get("self.max_priority")
+        good = {nf.poly(parse_expr(x), Scope(None, mi, envu, "u"), None).canon() for x in (f"max(np.max({pp}), self.max_priority)", f"max(self.max_priority, np.max({pp}))", f"np.maximum(self.max_priority, np.max({pp}))", f"max({pp}.max(), self.max_priority)", f"max(self.max_priority, {pp}.max())", f"max(max({pp}), self.max_priority)")}
+        ok2 = newmax in good
+        why = ""
+        if not ok2:
+            if newmax is None:
+                why = "max_priority is not raised: later transitions get an initial priority below stored ones"
+            elif "self.max_priority" not in newmax:
+                why = f"max_priority becomes `{newmax}`, which can be smaller than priorities stored earlier: the tracked maximum must never decrease in an update"
+            else:
+                raise AnalysisError(f"{PB}.update_priority: new max_priority `{newmax}` not recognised")
+        ck.ob("R4-bookkeeping", PB + ".update_priority", "raises-max", ok2, f"max_priority' = {newmax}", why, loc(mi, fn))
     fn = _m(repo, PB, "reset_max_priority")
-    txt = "\n".join(ast.unparse(s) for s in fn.body if not (isinstance(s, ast.Expr) and isinstance(s.value, ast.Constant)))
-    ok = txt == "if current_len > 0:\n    self.max_priority = np.max(self.priority[:current_len])"
-    ck.ob("R4-bookkeeping", PB + ".reset_max_priority", "true-maximum", ok, txt.replace("\n", " "), "" if ok else "after a reset max_priority must equal the maximum over the filled region", loc(mi, fn))
+    cfgr = nf.cfg_of(fn)
+    lp = [p_ for p_ in positional_params(fn) if p_ != "self"][0]
+    ws = [n for n in cfgr.nodes if n.kind == "stmt" and isinstance(n.ast, ast.Assign) and dotted(n.ast.targets[0]) == "self.max_priority"]
+    ck.need(len(ws) == 1, f"{PB}.reset_max_priority: expected one assignment of max_priority")
+    v = nf.poly(ws[0].ast.value, Scope(cfgr, mi, {}, PB), ws[0].id).canon()
+    g = guard_literals(nf, cfgr, mi, ws[0].id)
+    okv = v in (f"max(self.priority[:{lp}])", f"self.priority[:{lp}].max()")
+    okg = all(x in (sem_spec(nf, mi, f"{lp} > 0"), sem_spec(nf, mi, f"{lp} >= 1"), sem_spec(nf, mi, f"{lp} != 0"), lp) for x in g)
+    why = ""
+    if not okv:
+        if f"[:{lp}]" not in v and "self.priority" in v:
+            why = f"the maximum is taken over `{v}`: slots beyond the filled region hold uninitialised memory"
+        else:
+            raise AnalysisError(f"{PB}.reset_max_priority: new value `{v}` not recognised")
+    elif not okg:
+        raise AnalysisError(f"{PB}.reset_max_priority: guard {g} not recognised")
+    ck.ob("R4-bookkeeping", PB + ".reset_max_priority", "true-maximum", okv and okg, f"max_priority = {v} under {g}", why, loc(mi, fn))
 
     # ---- R5 formulas ---------------------------------------------------------------------------------------------------------
     for q, spec in ((RB + "lap_priority", "jnp.maximum(abs_td_error, min_priority) ** alpha"), (RB + "per_priority", "abs_td_error ** alpha + epsion")):
@@ -347,16 +513,27 @@ def run(ck, repo: Repo, tier: str):
     W = "(self.current_len * self.priority.priority[indices] / np.cumsum(self.priority.priority[indices])[-1]) ** (-beta)"
     want = nf.poly(parse_expr(f"{W} / np.max({W})"), Scope(None, mi, sc.env, "ir"), None)
     ck.ob("R5-formulas", RB + "PrioritizedReplayBuffer.compute_importance_ratio", "importance-ratio", got == want, f"{got.canon()[:170]}", "" if got == want else "must be (len*p/sum p)^(-beta) divided by its maximum (weights in (0,1], maximum 1, non-increasing in p)", loc(mi, fn))
-    # PER sample_batch computes the ratio for the sampled indices
+    # PER sample_batch computes the ratio for the very indices it gathers with
     fn = _m(repo, RB + "PrioritizedReplayBuffer", "sample_batch")
-    txt = "\n".join(ast.unparse(s) for s in fn.body)
-    ok = "importance_ratio = self.compute_importance_ratio(indices, beta)" in txt
-    ck.ob("R5-formulas", RB + "PrioritizedReplayBuffer.sample_batch", "ratio-of-sampled-indices", ok, "importance_ratio = compute_importance_ratio(indices, beta)", "" if ok else "weights must belong to the rows of the returned batch", loc(mi, fn))
-    # subtrajectory PER passes its mask
+    cfgs = nf.cfg_of(fn)
+    rc = stmt_calls(cfgs, lambda c: isinstance(c.func, ast.Attribute) and c.func.attr == "compute_importance_ratio")
+    gathers = [n for n in ast.walk(fn) if isinstance(n, ast.Subscript) and isinstance(n.value, ast.Subscript) and dotted(n.value.value) == "self.buffer"]
+    ck.need(len(rc) == 1 and gathers, f"{RB}PrioritizedReplayBuffer.sample_batch: importance-ratio call / gather not found (unrecognised idiom)")
+    nrc, crc = rc[0]
+    ia = crc.args[0] if crc.args else next((k.value for k in crc.keywords if k.arg == "indices"), None)
+    gi = gathers[0].slice
+    same = ia is not None and isinstance(ia, ast.Name) and isinstance(gi, ast.Name) and ia.id == gi.id and cfgs.defs_of(nrc.id, ia.id) == cfgs.defs_of(cfgs.node_of(gathers[0]).id, gi.id)
+    ck.ob("R5-formulas", RB + "PrioritizedReplayBuffer.sample_batch", "ratio-of-sampled-indices", bool(same), f"compute_importance_ratio({short(ia) if ia is not None else None}, ..); gather at [{short(gi)}]", "" if same else "weights must belong to the rows of the returned batch (same index vector, same definition)", loc(mi, fn))
+    # subtrajectory PER passes its mask and the filled length
     fn = _m(repo, RB + "SubtrajectoryReplayBufferPER", "_sample_idx")
-    rets = [n for n in ast.walk(fn) if isinstance(n, ast.Return)]
-    ok = len(rets) == 1 and ast.unparse(rets[0].value) == "self.priority.prioritized_sampling(self.current_len, batch_size, rng, self.mask_)"
-    ck.ob("R3-sampler-form", RB + "SubtrajectoryReplayBufferPER._sample_idx", "masked", ok, f"return {ast.unparse(rets[0].value) if rets else None}", "" if ok else "masked-out start indices must get zero probability: the sampler needs current_len and mask_", loc(mi, fn))
+    cfgp = nf.cfg_of(fn)
+    sc_ = stmt_calls(cfgp, lambda c: isinstance(c.func, ast.Attribute) and c.func.attr == "prioritized_sampling")
+    ck.need(len(sc_) == 1, f"{RB}SubtrajectoryReplayBufferPER._sample_idx: expected one prioritized_sampling call (unrecognised idiom)")
+    b = bind_call(repo.method(PB, "prioritized_sampling")[1], sc_[0][1], skip_self=True)
+    mval = nf.poly(b["mask"], Scope(cfgp, mi, {}, "p"), sc_[0][0].id).canon() if "mask" in b else None
+    lval = nf.poly(b["current_len"], Scope(cfgp, mi, {}, "p"), sc_[0][0].id).canon() if "current_len" in b else None
+    ok = mval == "self.mask_" and lval == "self.current_len"
+    ck.ob("R3-sampler-form", RB + "SubtrajectoryReplayBufferPER._sample_idx", "masked", ok, f"prioritized_sampling(current_len <- {lval}, mask <- {mval})", "" if ok else "masked-out start indices must get zero probability: the sampler needs current_len and mask_", loc(mi, fn))
 
     # ---- R6 call-site protocol ---------------------------------------------------------------------------------------------------
     res = Resolver(repo)
@@ -428,6 +605,8 @@ def run(ck, repo: Repo, tier: str):
 
 _F = "rl_blox/blox/replay_buffer.py"
 MUTANTS = [
+    {"id": "c08-lap-init-current-len", "file": _F, "rule": "R2", "find": "        self.priority.initialize_priority(self.insert_idx)\n        super().add_sample(**sample)", "replace": "        super().add_sample(**sample)\n        self.priority.initialize_priority(self.current_len - 1)"},
+    {"id": "c08-ratio-other-indices", "file": _F, "rule": "R5", "find": "        importance_ratio = self.compute_importance_ratio(indices, beta)", "replace": "        importance_ratio = self.compute_importance_ratio(self.priority.sampled_indices[::-1], beta)"},
     {"id": "c08-indices-on-buffer", "file": _F, "rule": "R1", "find": "        self.priority.sampled_indices = np.searchsorted(\n            probabilities, random_points\n        )\n        return self.priority.sampled_indices", "replace": "        self.sampled_indices = np.searchsorted(probabilities, random_points)\n        return self.sampled_indices"},
     {"id": "c08-init-after-add", "file": _F, "rule": "R2", "find": "        self.priority.initialize_priority(self.insert_idx)\n        super().add_sample(**sample)", "replace": "        super().add_sample(**sample)\n        self.priority.initialize_priority(self.insert_idx)"},
     {"id": "c08-init-one", "file": _F, "rule": "R2", "find": "        self.priority[insert_idx] = self.max_priority", "replace": "        self.priority[insert_idx] = 1.0"},
@@ -453,6 +632,12 @@ MUTANTS = [
     {"id": "c08-multitask-reset-selected", "file": _F, "rule": "R8", "find": "        for buffer in self.buffers:\n            buffer.reset_max_priority()", "replace": "        self.buffers[self.selected_task].reset_max_priority()"},
 ]
 BENIGN = [
+    {"id": "c08-b-lap-saved-slot", "file": _F, "find": "        self.priority.initialize_priority(self.insert_idx)\n        super().add_sample(**sample)", "replace": "        slot = self.insert_idx\n        super().add_sample(**sample)\n        self.priority.initialize_priority(slot)"},
+    {"id": "c08-b-max-np-maximum", "file": _F, "find": "        self.max_priority = max(np.max(priority), self.max_priority)", "replace": "        self.max_priority = np.maximum(self.max_priority, np.max(priority))"},
+    {"id": "c08-b-sampler-uniform-total", "file": _F, "find": "        random_uniforms = rng.uniform(0, 1, size=batch_size) * probabilities[-1]", "replace": "        total = probabilities[-1]\n        random_uniforms = rng.uniform(0, total, size=batch_size)"},
+    {"id": "c08-b-reset-guard-clause", "file": _F, "find": "        if current_len > 0:\n            self.max_priority = np.max(self.priority[:current_len])", "replace": "        if current_len <= 0:\n            return\n        self.max_priority = np.max(self.priority[:current_len])"},
+    {"id": "c08-b-delegate-keyword", "file": _F, "nth": 0, "find": "        self.priority.update_priority(priority)", "replace": "        self.priority.update_priority(priority=priority)"},
+    {"id": "c08-b-per-keywords", "file": _F, "find": "        return self.priority.prioritized_sampling(\n            self.current_len, batch_size, rng, self.mask_\n        )", "replace": "        idx = self.priority.prioritized_sampling(\n            current_len=self.current_len, batch_size=batch_size, rng=rng, mask=self.mask_\n        )\n        return idx"},
     {"id": "c08-b-sampler-copy-inplace", "file": _F, "nth": 0, "find": "            priority = priority * mask[:current_len]", "replace": "            priority = priority.copy()\n            priority *= mask[:current_len]"},
     {"id": "c08-b-local-alias", "file": _F, "find": "        self.priority[self.sampled_indices] = priority\n        self.max_priority = max(np.max(priority), self.max_priority)", "replace": "        self.priority[self.sampled_indices] = priority\n        self.max_priority = max(np.max(priority), self.max_priority)\n        assert self.max_priority > 0"},
     {"id": "c08-b-sampler-commuted", "file": _F, "find": "        random_uniforms = rng.uniform(0, 1, size=batch_size) * probabilities[-1]", "replace": "        random_uniforms = probabilities[-1] * rng.uniform(0, 1, size=batch_size)"},
